@@ -1041,6 +1041,40 @@ def r17_eval(ctx, repo):
     ctx.stat("R17 model calls: distinct argument lists", len(distinct))
 
 
+def r1710(ctx, repo):
+    """A cache that an object fills lazily (contours, event-wise child
+    features, basin proxies, …) must be that object's own: an attribute
+    bound at class level to a list / dict / set / deque / array and mutated
+    in place through ``self`` without being re-bound per instance in
+    ``__init__`` is one object for all instances – what one dataset cached
+    is served for another.  Registries addressed through the class name are
+    intended sharing and are not judged.  One obligation per class of the
+    anchored modules."""
+    from ..lib_common import shared_class_state
+    rels = ["dclab/cached.py", "dclab/kde_methods.py", "dclab/util.py",
+            "dclab/features/contour.py",
+            "dclab/rtdc_dataset/fmt_hierarchy/events.py",
+            "dclab/rtdc_dataset/feat_basin.py"]
+    n = 0
+    for rel in rels:
+        for c in [x for x in ast.walk(repo.tree(rel))
+                  if isinstance(x, ast.ClassDef)]:
+            n += 1
+            found = shared_class_state(c)
+            attrs = sorted({a for a, _, _ in found})
+            ctx.ob("R17.10", not found,
+                   f"{c.name}: no class-level mutable object is mutated "
+                   "through an instance" if not found else
+                   f"{c.name}: `{attrs[0]}` is bound at class level to a "
+                   f"mutable object and changed in place through self "
+                   f"(`{short(found[0][2], 50)}`), __init__ never gives the "
+                   "instance its own: every instance shares it – what one "
+                   "object cached is served by another",
+                   node=found[0][2] if found else c,
+                   key=f"{rel}::{c.name}::cache state per instance")
+    ctx.stat("R17.10 classes", n)
+
+
 def run(ctx):
     repo = ctx.repo
     ctx.rule("R17.8", "lazily cached feature arrays handed out uncopied are "
@@ -1066,9 +1100,19 @@ def run(ctx):
     ctx.rule("R17.9", "no memo keyed on the identity of an argument",
              minimum=1)
     r179(ctx, repo)
+    ctx.rule("R17.10", "lazily filled caches of objects belong to one "
+             "instance: no class-level mutable object is mutated through "
+             "self", minimum=12)
+    r1710(ctx, repo)
 
 
 MUTANTS = [
+    ("contour cache indices shared through a class-level list",
+     "dclab/features/contour.py",
+     [("class LazyContourList(object):\n",
+       "class LazyContourList(object):\n    indices = []\n"),
+      ("        self.indices = deque(maxlen=max_events or None)\n", "")],
+     "R17.10"),
     ("identity-keyed memo in get_bad_vals (seeded C17_12)", KDE,
      ("    return np.isnan(x) | np.isinf(x) | np.isnan(y) | np.isinf(y)\n",
       "    if _last_bad[0] is x and _last_bad[1] is y:\n"
@@ -1192,6 +1236,11 @@ MUTANTS = [
 ]
 
 TWINS = [
+    ("contour cache: class-level None defaults, deques per instance",
+     "dclab/features/contour.py",
+     ("class LazyContourList(object):\n",
+      "class LazyContourList(object):\n    contours = None\n"
+      "    indices = None\n")),
     ("scalar memo protected through the flags attribute", H5EV,
      ("            self._array.setflags(write=False)\n",
       "            self._array.flags.writeable = False\n")),
